@@ -281,6 +281,7 @@ CHECKS = {
             dict(name="free", test="TestC14Free", checks=(400, 30000), shards=(4, 14)),
             dict(name="controlled", test="TestC14Controlled", checks=(400, 30000), shards=(4, 14)),
             dict(name="service-rings", pkg="p_broker", test="TestC14ServiceRings", checks=(120, 6000), shards=(4, 14), timeout=(300, 3000)),
+            dict(name="client-reconnect-rings", pkg="p_client", test="TestC14ClientReconnect", checks=(60, 6000), shards=(4, 14), timeout=(300, 3000)),
         ]),
     "C15": dict(
         pkg="p_ring", level="exploration",
